@@ -100,6 +100,35 @@ class Collector(object):
         self.labels = {}
 
 
+class ColHook(object):
+    """carries the Collector across fork-based exploration (child -> parent)"""
+
+    def reset_in_child(self):
+        global COL
+        COL = Collector()
+
+    def dump(self):
+        return (COL.__dict__, dict(_interp.ENCODED))
+
+    def merge(self, data):
+        d, encd = data
+        c = COL
+        for k in ("reached", "discharged", "validated", "spurious"):
+            setattr(c, k, getattr(c, k) + d[k])
+        c.mismatch.extend(d["mismatch"][:5])
+        c.n_mismatch_extra = getattr(c, "n_mismatch_extra", 0) + max(0, len(d["mismatch"]) - 5) + d.get("n_mismatch_extra", 0)
+        c.violations.extend(d["violations"])
+        c.inconclusive.extend(d["inconclusive"][:5])
+        c.n_inconclusive_extra = getattr(c, "n_inconclusive_extra", 0) + max(0, len(d["inconclusive"]) - 5) + d.get("n_inconclusive_extra", 0)
+        if len(c.samples) < 3:
+            c.samples.extend(d["samples"][:3 - len(c.samples)])
+        for k, v in d["labels"].items():
+            c.labels[k] = c.labels.get(k, 0) + v
+        for k, v in d["known_hits"].items():
+            c.known_hits[k] = c.known_hits.get(k, 0) + v
+        _interp.ENCODED.update(encd)
+
+
 COL = None
 KNOWN = {}        # label -> list of (finding_id, sig)
 MAX_VIOL = int(os.environ.get("VERIF_MAX_VIOL", "1"))
@@ -209,7 +238,8 @@ def run_item(item):
     def body(st):
         fn(st, **params)
     ex = Explorer(body, max_seconds=item.get("budget_s"), timeout_ms=item.get("timeout_ms", 60000),
-                  prefix_roots=item.get("roots"), defer_depth=item.get("defer_depth"))
+                  prefix_roots=item.get("roots"), defer_depth=item.get("defer_depth") if os.environ.get("PYSX_FORK", "0") != "1" else None)
+    ex.blob_hooks.append(ColHook())
     err = None
     stopped = False
 
@@ -233,9 +263,10 @@ def run_item(item):
         "unsupported": st.unsupported, "decisions": st.decisions, "queries": st.queries,
         "solver_s": st.solver_s, "unknown": st.unknown, "reached": c.reached,
         "discharged": c.discharged, "validated": c.validated, "mismatch": c.mismatch[:5],
-        "n_mismatch": len(c.mismatch), "violations": c.violations, "spurious": c.spurious,
+        "n_mismatch": len(c.mismatch) + getattr(c, "n_mismatch_extra", 0), "violations": c.violations, "spurious": c.spurious,
         "inconclusive": (ex.inconclusive + c.inconclusive)[:20],
-        "n_inconclusive": ex.n_inconclusive + len(c.inconclusive),
+        "n_inconclusive": ex.n_inconclusive + len(c.inconclusive) + getattr(c, "n_inconclusive_extra", 0),
+        "forks": ex.n_forks, "child_crashes": ex.stats.child_crashes,
         "truncated": ex.truncated, "stopped": stopped, "error": err, "samples": c.samples,
         "labels": c.labels, "known_hits": c.known_hits,
         "deferred": ex.deferred,
@@ -244,6 +275,15 @@ def run_item(item):
 
 
 def _worker(item):
+    got = core.jobserver_acquire_blocking()
+    try:
+        return _worker2(item)
+    finally:
+        if got:
+            core.jobserver_release()
+
+
+def _worker2(item):
     try:
         return run_item(item)
     except BaseException:
@@ -257,6 +297,8 @@ def _worker(item):
 
 def run_items(items, jobs=None):
     jobs = jobs or min(16, os.cpu_count() or 4)
+    if core._JOBS is None:
+        core.jobserver_init(jobs)
     if len(items) == 1 or jobs == 1:
         return [_worker(it) for it in items]
     ctx = mp.get_context("fork")
